@@ -61,6 +61,88 @@ fn dump_via_cypher(db: &CDb) -> J {
     json!({"nodes": nodes, "rels": rels, "inn": inn})
 }
 
+/// plain JSON (the params_json of the C API) -> engine value, the way the C API converts it
+fn plain_json_to_value(v: &J) -> nervusdb_query::Value {
+    use nervusdb_query::Value;
+    match v {
+        J::Null => Value::Null,
+        J::Bool(b) => Value::Bool(*b),
+        J::Number(n) => if let Some(i) = n.as_i64() { Value::Int(i) } else { Value::Float(n.as_f64().unwrap_or(f64::NAN)) },
+        J::String(s) => Value::String(s.clone()),
+        J::Array(a) => Value::List(a.iter().map(plain_json_to_value).collect()),
+        J::Object(o) => Value::Map(o.iter().map(|(k, v)| (k.clone(), plain_json_to_value(v))).collect()),
+    }
+}
+
+/// canonical text of a value as returned by the C API (JSON) ...
+fn canon_json(v: &J) -> String {
+    match v {
+        J::Null => "null".into(),
+        J::Bool(b) => format!("b{b}"),
+        J::Number(n) => {
+            if let Some(i) = n.as_i64() { format!("i{i}") } else { format!("f{:016x}", n.as_f64().unwrap_or(f64::NAN).to_bits()) }
+        }
+        J::String(s) => format!("s{s:?}"),
+        J::Array(a) => format!("[{}]", a.iter().map(canon_json).collect::<Vec<_>>().join(",")),
+        J::Object(o) => match o.get("type").and_then(|t| t.as_str()) {
+            Some("float") => {
+                let x = match o["value"].as_str().unwrap_or("") { "NaN" => f64::NAN, "Infinity" => f64::INFINITY, "-Infinity" => f64::NEG_INFINITY, _ => 0.0 };
+                format!("f{:016x}", x.to_bits())
+            }
+            Some("node") => format!("node{}", o["id"]),
+            Some("node_id") => format!("node{}", o["value"]),
+            Some("relationship") => format!("rel{}:{}:{}", o["src"], o["rel_type"].as_str().unwrap_or("?"), o["dst"]),
+            _ => format!("{{{}}}", o.iter().map(|(k, v)| format!("{k:?}:{}", canon_json(v))).collect::<Vec<_>>().join(",")),
+        },
+    }
+}
+
+/// ... and of a tagged value from the Rust API, in the same notation
+fn canon_tv(t: &J) -> String {
+    let a = t.as_array().unwrap();
+    match a[0].as_str().unwrap_or("") {
+        "null" => "null".into(),
+        "bool" => format!("b{}", a[1]),
+        "int" => {
+            let mut v: i128 = 0;
+            for limb in a[1]["m"].as_array().unwrap().iter().rev() {
+                v = v * 10000 + limb.as_i64().unwrap() as i128;
+            }
+            format!("i{}", v * a[1]["s"].as_i64().unwrap() as i128)
+        }
+        "float" => {
+            let f = &a[1];
+            let x = match f["k"].as_str().unwrap_or("") {
+                "nan" => f64::NAN,
+                "pinf" => f64::INFINITY,
+                "ninf" => f64::NEG_INFINITY,
+                "other" => f64::from_bits(u64::from_str_radix(f["bits"].as_str().unwrap_or("0"), 16).unwrap_or(0)),
+                _ => {
+                    let mut v: i128 = 0;
+                    for limb in f["n"]["m"].as_array().unwrap().iter().rev() {
+                        v = v * 10000 + limb.as_i64().unwrap() as i128;
+                    }
+                    let n = (v * f["n"]["s"].as_i64().unwrap() as i128) as f64;
+                    if v == 0 && f["neg0"].as_bool().unwrap_or(false) { -0.0 } else { n / 2f64.powi(f["e"].as_i64().unwrap() as i32) }
+                }
+            };
+            format!("f{:016x}", x.to_bits())
+        }
+        "str" => {
+            let s: String = a[1].as_array().unwrap().iter().map(|c| char::from_u32(c.as_u64().unwrap() as u32).unwrap()).collect();
+            format!("s{s:?}")
+        }
+        "list" => format!("[{}]", a[1].as_array().unwrap().iter().map(canon_tv).collect::<Vec<_>>().join(",")),
+        "map" => format!("{{{}}}", a[1].as_array().unwrap().iter().map(|kv| {
+            let k: String = kv[0].as_array().unwrap().iter().map(|c| char::from_u32(c.as_u64().unwrap() as u32).unwrap()).collect();
+            format!("{k:?}:{}", canon_tv(&kv[1]))
+        }).collect::<Vec<_>>().join(",")),
+        "node" => format!("node{}", a[1]),
+        "rel" => format!("rel{}:{}:{}", a[1][0], a[1][1].as_str().unwrap_or("?"), a[1][2]),
+        other => format!("other:{other}"),
+    }
+}
+
 fn dump_closed(path: &Path) -> J {
     match Db::open(path) {
         Ok(db) => {
@@ -89,10 +171,20 @@ pub fn run_sessions(sessions: &[J], out: &mut dyn Write, scratch: &Path) -> J {
             }
         };
         let db = &db0;
+        // C34: an identical database driven through the Rust API (its own files)
+        let twin: Option<Db> = if s["twin"].as_bool().unwrap_or(false) {
+            let tdir = scratch.join("capi_twin");
+            let _ = std::fs::remove_dir_all(&tdir);
+            std::fs::create_dir_all(&tdir).unwrap();
+            Db::open(tdir.join("g")).ok()
+        } else { None };
         let mut setup_res = Vec::new();
         for st in s["setup"].as_array().cloned().unwrap_or_default() {
             let r = db.execute_write(st.as_str().unwrap_or(""), &json!({}));
             setup_res.push(json!(if r["rc"] == 0 { "ok".to_string() } else { format!("err:{}", r["message"]) }));
+            if let Some(t) = &twin {
+                let _ = crate::cypher::run_write(t, st.as_str().unwrap_or(""), &nervusdb_query::Params::new());
+            }
         }
         // the handle stays open for the whole session (state kept inside the engine between statements is part
         // of what is observed); only the final dump goes through a fresh Rust handle
@@ -117,6 +209,58 @@ pub fn run_sessions(sessions: &[J], out: &mut dyn Write, scratch: &Path) -> J {
                     let mut res = res_of(&r);
                     res["json_rows"] = r.get("rows").cloned().unwrap_or(json!(null));
                     ev["res"] = res;
+                }
+                "parity" => {
+                    // the same read through ndb_query and through prepare + execute_streaming on the twin
+                    let r = db.query(c["query"].as_str().unwrap_or(""), &params);
+                    let mut cres = res_of(&r);
+                    let mut crow_strs: Vec<String> = Vec::new();
+                    if let Some(rows) = r.get("rows").and_then(|x| x.as_array()) {
+                        for row in rows {
+                            let mut cols: Vec<String> = row.as_object().map(|m| m.iter().map(|(k, v)| format!("{k}={}", canon_json(v))).collect()).unwrap_or_default();
+                            cols.sort();
+                            crow_strs.push(cols.join(";"));
+                        }
+                    }
+                    cres["rowstrs"] = json!(crow_strs);
+                    ev["cres"] = cres;
+                    if let Some(t) = &twin {
+                        learn_rel_names(t);
+                        let mut p = nervusdb_query::Params::new();
+                        if let Some(o) = params.as_object() {
+                            for (k, v) in o {
+                                p.insert(k.clone(), plain_json_to_value(v));
+                            }
+                        }
+                        let o = crate::cypher::run_read(t, c["query"].as_str().unwrap_or(""), &p);
+                        let mut rres = o.to_json();
+                        let rs: Vec<String> = o.rows.iter().map(|row| {
+                            let mut cols: Vec<String> = o.cols.iter().zip(row.iter()).map(|(k, v)| format!("{k}={}", canon_tv(&v.0))).collect();
+                            cols.sort();
+                            cols.join(";")
+                        }).collect();
+                        rres["rowstrs"] = json!(rs);
+                        ev["res"] = rres;
+                    } else {
+                        ev["res"] = json!({"out": "err", "err": "no twin", "rowstrs": []});
+                    }
+                }
+                "accept" => {
+                    // the same statement offered to the read entry point and to the write entry point
+                    let rq = db.query(c["query"].as_str().unwrap_or(""), &params);
+                    let rw = db.execute_write(c["query"].as_str().unwrap_or(""), &params);
+                    // a refusal by the entry point's read/write gate (as opposed to a failure while executing)
+                    let gate = |r: &J| -> bool {
+                        let m = r["message"].as_str().unwrap_or("");
+                        m.contains("does not accept write statements") || m.contains("expects a write statement")
+                    };
+                    let mut jq = res_of(&rq);
+                    jq["gate_refused"] = json!(gate(&rq));
+                    let mut jw = res_of(&rw);
+                    jw["gate_refused"] = json!(gate(&rw));
+                    ev["res_query"] = jq;
+                    ev["res_exec"] = jw;
+                    ev["res"] = res_of(&rw);
                 }
                 "txn" => {
                     let mut results = Vec::new();
